@@ -90,6 +90,15 @@ def corpus():
         case("doc", ts, 'enum E { A "d" null @x }', "corpus:enum-reserved"),
         case("doc", ts, "extend enum E { false }", "corpus:enum-reserved"),
         case("doc", ts, "enum E { A truex nullable }", "corpus:enum-reserved"),
+        # keywords in name position
+        case("doc", (False, False, False), "fragment on on T { a }", "corpus:keyword-names"),
+        case("doc", (False, False, False), "fragment F on on { a }", "corpus:keyword-names"),
+        case("doc", (False, False, False), "query on { on: on(on: on) @on ...on ... on on { on } }", "corpus:keyword-names"),
+        case("doc", (False, False, True), "fragment true($on: on = on) on null { fragment }", "corpus:keyword-names"),
+        case("doc", ts, "type type implements implements & interface { type: type } enum enum { enum on }", "corpus:keyword-names"),
+        case("doc", ts, "query Q($a: Int = $b) { a }", "corpus:const"),
+        case("doc", ts, "type T { f(a: Int = $b): Int }", "corpus:const"),
+        case("doc", ts, "{ a @d(x: $v) } type T @d(x: $v) { f: Int }", "corpus:const"),
         # the documented follow restriction and its one slack (Float before "...")
         case("lex", (False, False, False), "1.2...", "corpus:follow"),
         case("lex", (False, False, False), "1...", "corpus:follow"),
@@ -105,7 +114,7 @@ def corpus():
 def generate(rng, tier):
     global SHARD
     quick = tier == "quick"
-    SHARD = 400 if quick else 1500
+    SHARD = 400 if quick else 500
     out = []
     n_valid = 260 if quick else 5000
     for i in range(n_valid):
